@@ -7,7 +7,7 @@
     starting thread); for the task as written the statements are false
     (Refuted/R_C20.v). *)
 From Coq Require Import ZArith List Bool.
-From CV Require Import Lib.Sx Lib.ListZ Model.M_monitor Proof.P_monitor.
+From CV Require Import Lib.Sx Lib.ListZ Model.M_monitor Proof.P_monitor Proof.P_monitor_tm.
 Import ListNotations.
 Open Scope Z_scope.
 
@@ -69,3 +69,37 @@ Example c20_nonvacuous :
      /\ lastop (ct s) = Some OGraceful /\ pc (ct s) = CFin /\ lenZ (tasks s) = 2).
 Proof. exact ex_nonvacuous. Qed.
 Print Assumptions c20_nonvacuous.
+
+(** ThreadManager (repaired stop()): [treach n progs s] - s is reached by any interleaving of
+    n bus stops with request threads running the acquire/release programs [progs], dict
+    operations atomic.  Every registration (ghost id g, one per `threads[ident] = i`) gets
+    start_thread at most once and stop_thread at most once in every reachable state; when no
+    notification for it is pending any more, start_thread was delivered exactly once and
+    stop_thread exactly once - unless the thread is still registered (then not yet). *)
+Theorem c20_thread_notifications : forall n progs s g,
+  treach n progs s -> 0 <= g < nextg s ->
+  nS g s <= 1 /\ nE g s <= 1 /\
+  (settled g s -> nS g s = 1 /\ nE g s + nL g s = 1).
+Proof. exact thm_thread_notifications. Qed.
+Print Assumptions c20_thread_notifications.
+
+(** ... and nothing is ever published for a registration that does not exist. *)
+Theorem c20_no_spurious_notifications : forall n progs s g,
+  treach n progs s -> (g < 0 \/ nextg s <= g) -> nS g s = 0 /\ nE g s = 0.
+Proof. exact thm_no_spurious. Qed.
+Print Assumptions c20_no_spurious_notifications.
+
+Theorem c20_tm_schedules_are_executions : forall n progs sched ok s tr,
+  run_tm true n progs sched = (ok, s, tr) -> treach n progs s.
+Proof. exact run_tm_reach. Qed.
+Print Assumptions c20_tm_schedules_are_executions.
+
+Example c20_tm_nonvacuous :
+  exists ok s tr,
+    run_tm true 1 [[RAcq; RRel]; [RAcq]] [1;1;1;1;1;1;0;0;0;0;0;0;2;2;2;2;2;2;1;1;1] = (ok, s, tr)
+    /\ treach 1 [[RAcq; RRel]; [RAcq]] s /\ nextg s = 2
+    /\ settled 0 s /\ settled 1 s
+    /\ nS 0 s = 1 /\ nE 0 s = 1 /\ nL 0 s = 0
+    /\ nS 1 s = 1 /\ nE 1 s = 0 /\ nL 1 s = 1.
+Proof. exact ex_tm_nonvacuous. Qed.
+Print Assumptions c20_tm_nonvacuous.
